@@ -16,6 +16,8 @@ import (
 	"fmt"
 	"math/rand/v2"
 	"os"
+	"regexp"
+	"runtime/debug"
 	"strings"
 	"sync"
 	"testing"
@@ -56,7 +58,7 @@ func TestCheck(t *testing.T) {
 		{"malformed-duplicate-name-refused", 5, 50},
 		{"malformed-bad-digest-refused", 5, 50},
 		{"malformed-unavailable-dir-blob-refused", 5, 50},
-		{"malformed-case-colliding-names-refused", 3, 30},
+		{"case-colliding-names-directory-accessed", 3, 30},
 		{"malformed-root-refused-by-merge", 3, 30},
 		{"broken-file-blob-refused", 5, 50},
 		{"fault-on-first-load-then-retry", 20, 200},
@@ -297,7 +299,17 @@ func runVirtualCase(r *ev.Run, idx int) {
 		}
 	}
 	if !c.isViolated() {
-		c.finalChecks(hashBefore)
+		func() {
+			defer func() {
+				if r := recover(); r != nil {
+					if len(c.actions) == 0 {
+						panic(r)
+					}
+					c.actions[0].handlePanic(r, string(debug.Stack()))
+				}
+			}()
+			c.finalChecks(hashBefore)
+		}()
 	}
 
 	// ---- evidence ----
@@ -382,6 +394,9 @@ func (c *caseRun) setupAction(a *action) bool {
 	} else {
 		live := e.leaves.live()
 		var err error
+		if root.bad == "case-colliding-names" {
+			c.situation("case-colliding-names-directory-accessed")
+		}
 		if msg := guarded(func() { err = e.merge(ir, root.digest) }); msg != "" {
 			a.logf("merge root=%s bad=%q -> PANIC %s", root.digest, root.bad, msg)
 			a.h("merge", "panic")
@@ -442,11 +457,54 @@ func (a *action) run(n int) {
 	}
 }
 
+var digitsRE = regexp.MustCompile(`[0-9]+`)
+
+// handlePanic converts a panic raised inside /repo code during a step into
+// a violation and abandons the case (directory locks may have been left
+// behind, so nothing of the case is touched again). Panics that do not
+// involve /repo code are harness bugs and are re-raised.
+func (a *action) handlePanic(r any, stack string) {
+	fn := ""
+	for _, line := range strings.Split(stack, "\n") {
+		if strings.HasPrefix(line, "github.com/buildbarn/bb-remote-execution/pkg/") {
+			fn = line
+			if i := strings.LastIndex(fn, "("); i > 0 {
+				fn = fn[:i]
+			}
+			fn = fn[strings.LastIndex(fn, "/")+1:]
+			break
+		}
+	}
+	if fn == "" {
+		panic(r)
+	}
+	msg := fmt.Sprint(r)
+	a.logf("PANIC in %s: %s", fn, msg)
+	a.h("step", "panic")
+	sig := "panic fn=" + fn + " msg=" + digitsRE.ReplaceAllString(head2(msg, 80), "N")
+	if a.c.prof.Malformed == "case-colliding-names" && strings.Contains(msg, "may not be attached") {
+		sig = "malformed panic kind=case-colliding-names via=step"
+	}
+	a.violate(sig, "panic inside /repo code: "+msg, map[string]any{"panic": msg, "stack": head2(stack, 4000)})
+}
+
+func head2(s string, n int) string {
+	if len(s) > n {
+		return s[:n]
+	}
+	return s
+}
+
 // step performs one PRNG-chosen operation.
 func (a *action) step() {
 	if a.dead {
 		return
 	}
+	defer func() {
+		if r := recover(); r != nil {
+			a.handlePanic(r, string(debug.Stack()))
+		}
+	}()
 	stop := []int{10, 30, 60}[a.rng.IntN(3)]
 	p, m := a.pickDir(stop)
 	if len(p) == maxDepth {
